@@ -28,7 +28,7 @@ func minDepth(l int) int {
 // maxLeaves leaves and depth at most maxDepth. The label pool is drawn per
 // formula (1..4 labels) so that repeated labels are frequent.
 func genFormula(t *rapid.T) *abe.Node {
-	leaves := rapid.SampledFrom([]int{1, 1, 2, 2, 2, 3, 3, 3, 4, 4, 5, 6}).Draw(t, "leaves")
+	leaves := rapid.SampledFrom([]int{1, 2, 2, 3, 3, 3, 4, 4, 4, 5, 5, 6, 6}).Draw(t, "leaves")
 	pool := rapid.IntRange(1, len(alphabet.Labels)).Draw(t, "labelPool")
 	off := rapid.IntRange(0, len(alphabet.Labels)-1).Draw(t, "labelOff")
 	labels := make([]string, pool)
@@ -43,7 +43,7 @@ func genNode(t *rapid.T, leaves, budget int, labels, values []string) *abe.Node 
 	maxNots := budget - minDepth(leaves)
 	k := 0
 	if maxNots > 0 {
-		k = rapid.SampledFrom([]int{0, 0, 0, 0, 1, 1, 1, 2, 2, 3, 4}).Draw(t, "nots")
+		k = rapid.SampledFrom([]int{0, 0, 0, 0, 0, 0, 1, 1, 1, 2, 2, 3, 4}).Draw(t, "nots")
 		if k > maxNots {
 			k = maxNots
 		}
